@@ -16,6 +16,7 @@ LEVEL_NOTE = 'Trusted: the list model; numeric constants with limit=None only; a
 RULE = ('a case = (NaN mask, container kind in {Series, 1-d array, DataFrame, 2-d array}, method or method list, limit); quick: all masks of length <=6 plus random vectors to length 40 and '
         'frames to 8x3; thorough: ALL 2^n masks for every n<=10 x all methods x limit in {None,1,2,3}; non-trivial = mask with an interior NaN run and a leading or trailing NaN run, '
         'or an all-NaN row in a frame with a partly-NaN row; distinct = canonical hash')
+RULE_ALSO = "; added by the coverage audit and round 8: 'backfill' spelling, nona with the NaN value spelt out in five ways"
 ASSUMPTIONS = ['axis is not part of the statement and is not varied', 'numeric constants are combined with limit=None only (pandas counts the limit differently for value fills)',
                "an all-NaN column is left unchanged by ffill_na / ffill_0 (no 'last valid observation' exists)",
                "the deprecated alias 'pad' is not exercised",
